@@ -102,8 +102,57 @@ def load(defs, cfg, compiled=None, text=None):
                 U.add_field(f["name"], ft, offset=f.get("offset") or None)
             cs.add_type(d["n"], U)
         return cs
+    grow = _grow_plan(defs, cfg) if text is None else None
+    if grow:
+        # Root is declared without its last k members, USED, and then completed through the public API (add_field one by
+        # one, or as one start_update batch): the finished type is the one-shot type (C18), so every check that loads
+        # through here also sees types with an incremental history
+        k, batch, rootdef = grow
+        fields = rootdef["t"]["fields"]
+        short = dict(rootdef, t=dict(rootdef["t"], fields=fields[:-k]))
+        helper = {"k": "structdef", "n": "Root__tail", "t": {"k": "st", "kind": "struct", "name": None, "fields": fields[-k:]}}
+        cs.load(render([d for d in defs if d is not rootdef] + [short]), compiled=comp, align=bool(cfg.get("align")))
+        cs.load(render_def(helper), compiled=False, align=bool(cfg.get("align")))
+        tail_types = [f.type for f in cs.resolve("Root__tail").__fields__]
+        R = cs.Root
+        try:
+            R().dumps()
+            o = R(bytes((i * 37 + 1) % 251 for i in range(64)))
+            o.dumps()
+        except Exception:  # noqa: BLE001 - the intermediate type may not accept these bytes (short input for a dynamic member, ...)
+            pass
+        if batch:
+            with R.start_update():
+                for f_, ft in zip(fields[-k:], tail_types):
+                    R.add_field(f_["name"], ft)
+        else:
+            for f_, ft in zip(fields[-k:], tail_types):
+                R.add_field(f_["name"], ft)
+        return cs
     cs.load(text if text is not None else render(defs), compiled=comp, align=bool(cfg.get("align")))
     return cs
+
+
+def _grow_plan(defs, cfg):
+    """-> (k, batch, rootdef) when cfg asks for a Root with an incremental history and the definition allows it."""
+    g = cfg.get("grow")
+    if not g:
+        return None
+    rootdef = next((d for d in defs if d["k"] == "structdef" and d["n"] == "Root"), None)
+    if rootdef is None or rootdef["t"]["kind"] != "struct" or "align" in rootdef["t"]:
+        return None
+    fields = rootdef["t"]["fields"]
+    if any(f.get("bits") or f.get("offset") for f in fields):
+        return None  # a bit-field's storage unit may span the split
+    tail = 0
+    for f in reversed(fields):
+        if f.get("name") is None or f["name"] == "_":
+            break
+        tail += 1
+    tail = min(tail, len(fields) - 1)
+    if tail < 1:
+        return None
+    return 1 + g[0] % tail, bool(g[1]), rootdef
 
 
 # ---------------------------------------------------------------- plain values
